@@ -190,7 +190,7 @@ Section NP.
   Proof.
     induction ids as [|id r IH]; intros s acc; cbn [search_ids]; [exact I|].
     destruct (alookup id (st_facts s)) as [fact|]; [|apply IH].
-    destruct (expire rr s id fact now) as [s1 ex]. destruct ex; [apply IH|].
+    destruct (expire rr s id fact now) as [[s1 ex] err]. destruct (expire_stops (st_kind s) err); [exact I|]. destruct ex; [apply IH|].
     pose proof (core_match_npo pattern fact []) as Hm.
     destruct (core_match pattern fact []) as [[|b bss]|e|w|]; try apply IH; try exact I. exact Hm.
   Qed.
@@ -284,7 +284,7 @@ Definition st_store_ground_Rem := st_Rem_inv st_store_ground st_store_ground_amb
 Definition st_store_ground_find_rules :=
   st_find_rules_inv st_store_ground st_store_ground_amb st_store_ground_head.
 
-Lemma expire_ground s id fact now : st_ground s -> st_ground (fst (expire st_rem_rec s id fact now)).
+Lemma expire_ground s id fact now : st_ground s -> st_ground (fst (fst (expire st_rem_rec s id fact now))).
 Proof.
   apply (expire_R (fun s s' => st_ground s -> st_ground s') (fun s H => H)
            (fun a b c H1 H2 H => H2 (H1 H)) st_ground_amb st_rem_rec st_ground_rem_rec).
@@ -299,7 +299,7 @@ Proof.
   intros Hm. induction ids as [|id r IH]; intros s acc Hg; cbn [search_ids]; [reflexivity|].
   destruct (alookup id (st_facts s)) as [fact|] eqn:El; [|apply IH; exact Hg].
   pose proof (expire_ground s id fact now Hg) as Hg1.
-  destruct (expire st_rem_rec s id fact now) as [s1 ex]. cbn [fst] in Hg1.
+  destruct (expire st_rem_rec s id fact now) as [[s1 ex] err]. destruct (expire_stops (st_kind s) err); [reflexivity|]. cbn [fst] in Hg1.
   destruct ex; [apply IH; exact Hg1|].
   pose proof (Hm fact (ground_list_lookup id fact _ Hg El)) as Hf.
   destruct (core_match pattern fact []) as [[|b bss]|e|w|]; cbn in Hf; try discriminate;
@@ -458,7 +458,7 @@ Lemma find_ids_idx_obad now : forall ids s acc, obad (snd (find_ids_idx s ids no
 Proof.
   induction ids as [|id r IH]; intros s acc; cbn [find_ids_idx]; [reflexivity|].
   destruct (alookup id (st_facts s)) as [fact|]; [|reflexivity].
-  destruct (expire st_rem_rec s id fact now) as [s1 ex]. destruct ex; [apply IH|].
+  destruct (expire st_rem_rec s id fact now) as [[s1 ex] err]. destruct ex; [apply IH|].
   pose proof (extract_rule_anyr fact true) as He.
   destruct (extract_rule fact true) as [[body|]|e|w|]; try contradiction; try reflexivity. apply IH.
 Qed.
@@ -469,7 +469,7 @@ Proof.
   intros Hev. induction ids as [|id r IH]; intros s acc; cbn [find_ids_lin]; [reflexivity|].
   destruct (alookup id (st_facts s)) as [fact|]; [|apply IH].
   destruct (jget "rule" fact) as [rule|]; [|apply IH].
-  destruct (expire st_rem_rec s id fact now) as [s1 ex]. destruct ex; [apply IH|].
+  destruct (expire st_rem_rec s id fact now) as [[s1 ex] err]. destruct err; [reflexivity|]. destruct ex; [apply IH|].
   destruct rule as [| | | | |rm]; try apply IH.
   destruct (alookup "when" rm) as [[| | | | |w]|]; try apply IH.
   match goal with |- context [core_match ?p ev []] =>
@@ -500,7 +500,7 @@ Lemma search_ids_obad_all rr pattern now :
 Proof.
   intros Hm. induction ids as [|id r IH]; intros s acc; cbn [search_ids]; [reflexivity|].
   destruct (alookup id (st_facts s)) as [fact|]; [|apply IH].
-  destruct (expire rr s id fact now) as [s1 ex]. destruct ex; [apply IH|].
+  destruct (expire rr s id fact now) as [[s1 ex] err]. destruct (expire_stops (st_kind s) err); [reflexivity|]. destruct ex; [apply IH|].
   pose proof (Hm fact) as Hf.
   destruct (core_match pattern fact []) as [[|b bss]|e|w|]; cbn in Hf; try discriminate;
     try apply IH. reflexivity.
